@@ -26,8 +26,22 @@ pub const fn g_id(k: usize) -> u128 {
     100 + k as u128
 }
 
-#[derive(Clone, PartialEq, Debug, Default)]
+#[derive(Clone, Debug, Default)]
 pub struct FP(pub BTreeMap<u128, Scalar>);
+
+/// Equality of group elements; while the log of `msm_log_start` is armed the operands of the latest comparison are kept: the
+/// verifier's verdict is decided by a comparison (with the identity, or of two sides), whatever it computed before.
+impl PartialEq for FP {
+    fn eq(&self, o: &Self) -> bool {
+        let r = self.0 == o.0;
+        CMP_LAST.with(|c| {
+            if let Some(slot) = c.borrow_mut().as_mut() {
+                *slot = Some((self.clone(), o.clone()));
+            }
+        });
+        r
+    }
+}
 
 impl FP {
     pub fn basis(id: u128) -> Self {
@@ -122,6 +136,8 @@ thread_local! {
     /// every result of a precomputed ("mixed") multiscalar multiplication on this thread, while logging is on
     /// (precomputed?, result) of every multiscalar multiplication while the log is armed
     static MSM_LOG: RefCell<Option<Vec<(bool, FP)>>> = const { RefCell::new(None) };
+    /// armed: Some(..); operands of the latest comparison made AFTER the latest multiscalar multiplication
+    static CMP_LAST: RefCell<Option<Option<(FP, FP)>>> = const { RefCell::new(None) };
     /// coordinate-operation counter (deterministic work proxy)
     static OPS: Cell<u64> = const { Cell::new(0) };
     /// content-addressed table of compressed points, owned by the running case
@@ -136,6 +152,7 @@ pub fn reset_ops() {
 }
 pub fn msm_log_start() {
     MSM_LOG.with(|l| *l.borrow_mut() = Some(Vec::new()));
+    CMP_LAST.with(|c| *c.borrow_mut() = Some(None));
 }
 /// Stop logging and return the value of every FINAL CHECK made while the log was armed, in order: a verifier either asks whether
 /// one precomputed (mixed) multiscalar multiplication is the identity - then that result is the value - or compares a precomputed
@@ -143,6 +160,15 @@ pub fn msm_log_start() {
 /// zero, and the value is the verifier's relation up to a nonzero factor.
 pub fn msm_log_stop() -> Vec<FP> {
     let raw = MSM_LOG.with(|l| l.borrow_mut().take().unwrap_or_default());
+    // the comparison that judged the latest multiscalar result, if the verifier made one: its two sides differ by the value of
+    // the final check (first the most direct reading; the pairing rule below is the fallback for a verifier that does not
+    // compare group elements with `==`)
+    let cmp = CMP_LAST.with(|c| c.borrow_mut().take().flatten());
+    if let (Some((a, b)), false) = (cmp, raw.is_empty()) {
+        let mut d = a;
+        d.add_scaled(&-Scalar::ONE, &b);
+        return vec![d];
+    }
     let mut out = vec![];
     let mut i = 0;
     while i < raw.len() {
@@ -166,6 +192,11 @@ pub fn msm_log_stop() -> Vec<FP> {
     out
 }
 fn log_msm(pre: bool, r: &FP) {
+    CMP_LAST.with(|c| {
+        if let Some(slot) = c.borrow_mut().as_mut() {
+            *slot = None;
+        }
+    });
     MSM_LOG.with(|l| {
         if let Some(v) = l.borrow_mut().as_mut() {
             v.push((pre, r.clone()))
